@@ -21,7 +21,7 @@ PROP = {
                   "blocks bit-equal), with glam's own product of the elementary constructors, and across types. to_scale_rotation_translation (Mat4, DMat4, Affine3A, DAffine3) and to_scale_angle_translation "
                   "(Affine2, DAffine2) are checked on reference-built and self-built transforms: translation bit-equal to the last column, unit rotation, scale magnitudes equal to the column norms and to the composed "
                   "scales, the sign rule (negative determinant <=> only the x scale negative), and recomposition of the returned triple (by the reference and by glam's constructor) reproduces the matrix within "
-                  "32u per column norm; all 8/4 sign patterns x all four matrix-to-quaternion branches are tallied. Exploration, not proof.",
+                  "32u per column norm; all 8/4 sign patterns x all four matrix-to-quaternion branches are tallied. The same sub-checks also run against the SSE2 build with glam-assert compiled in: the generated inputs satisfy the documented preconditions, so a panic there is a failure. Exploration, not proof.",
     "level_note": "Trusted: the double-double reference in engine/c10/src/refm.rs (self-tested at start-up), to_cols_array/from_cols_array/to_array for moving lanes, rustc, proptest. Mat3 has no "
                   "to_scale_angle_translation in this version of glam, so the 2D decomposition covers Affine2/DAffine2 only. NEON/wasm32 backends cannot be built here.",
     "design_ref": "DESIGN.md section 5 C10",
